@@ -437,7 +437,10 @@ def _construct_dsdl_definitions_from_namespaces(
                 p,
             )
 
-    return dsdl_file_sort([_dsdl_definition.DSDLDefinition(*p) for p in source_file_paths])
+    # Sort the paths first: the definition ordering below does not distinguish between two files that define the same
+    # type under the same version (e.g., Type.1.0.dsdl next to Type.1.0.uavcan), so without this the outcome would
+    # depend on the iteration order of the set, i.e., on the hash seed.
+    return dsdl_file_sort([_dsdl_definition.DSDLDefinition(*p) for p in sorted(source_file_paths)])
 
 
 def _ensure_no_fixed_port_id_collisions(types: list[_serializable.CompositeType]) -> None:
